@@ -72,6 +72,43 @@ PROPS = {
         "technique": "Lean 4 proof (invariants by induction over traces, refinement) + trace validation against the real managers",
         "partial": ["index structures (grid/heap) not modelled: their choice is the nondeterminism", "OOM / max_handle failure paths not exercised"],
     },
+    "C07": {
+        "title": "Compute tables are transparent",
+        "theorems": ["Meddly.CT." + t for t in [
+            "ct_trace_sound", "cc_exact", "keys_distinct", "removeAll_empty", "removeStales_clean",
+            "no_reuse_while_cached", "lossy_ok", "tracking_sound", "find_accepted"]],
+        "quick": [fam("ctable")],
+        "thorough": [fam("ctable", "asan")],
+        "leanchecker": ["MeddlyModel.State.ComputeTable"],
+        "level_text": "Specification automaton CT (lossy map: any entry may disappear at any step; a hit is accepted only if it is the most recent add for that key and none of its nodes or its entry type was dead at any time since). Theorems for every accepted trace: ct_trace_sound, cc_exact (cache count = occurrences in live entries), no_reuse_while_cached, lossy_ok (a client that recomputes on a miss observes the same results under EVERY loss schedule as with an empty table). Tie: trace validation of findCT/addCT/removeStales/removeAll against real nodes that are created, released and re-created (handle reuse), under all 4 styles x 3 stale policies x maxSize in {1,1024,2048,default}; plus an end-to-end script of real operations executed under several configurations whose result tables must be identical and equal to the pointwise oracle.",
+        "level_note": "NodeLifeOK (a dead node with cache count > 0 stays dead, searched keys mention no dead node) is a hypothesis owed by C06's NodeLife model and is monitored in the trace, not proved here. In unchained styles silent evictions make only an upper bound of the cache count checkable from the trace; exactness there rests on cc = countAllNodeEntries of the real table. lossy_ok is for a flat client, not a recursive apply. Hash quality/performance not modelled.",
+        "technique": "Lean 4 proof (trace acceptance + invariants by induction) + trace validation + cross-configuration differential run",
+        "partial": ["mark-and-sweep forests (no cache counts) not covered", "recursive apply modelled as flat client in lossy_ok"],
+    },
+    "C01": {
+        "title": "Canonicity",
+        "theorems": CORE + ["Meddly.DD.canon_gen", "Meddly.DD.zero_unique", "Meddly.Dump.unfold_fuel",
+                            "Meddly.Dump.check_sound_node", "Meddly.DD.apply2_unique", "Meddly.DD.apply1_unique",
+                            "Meddly.DD.apply2_red_top", "Meddly.DD.mkNode_red"],
+        "quick": [fam("canon")],
+        "thorough": [fam("canon", "asan")],
+        "leanchecker": ["MeddlyModel.Core.Canon", "MeddlyModel.Core.Dump"],
+        "level_text": "DD.canon: two reduced trees (fully / quasi / identity rule, any domain with sizes >= 2, any terminal type) denote the same function iff they are the same tree; Dump.check_sound + Dump.unfold_inj: a dump of the real node store accepted by the verified checker unfolds injectively into reduced trees, so in THAT real state every two edges are equal iff they denote the same function (all assignments, not the sampled ones); mkNode_red/apply*_red: the model's createReducedNode and apply keep the reduced form. Tie: every quiescent state of random histories is dumped and certified; the same function is built along 5 different paths (minterm orders, op chains, copies through other forests, after GC and handle reuse) and the observed == partition must equal the partition by evaluation table.",
+        "level_note": "Proved for multi-terminal forests; EV+ / EV* forests are covered by the structural recount, the model evaluation of the dump and the == partition, not by Dump.check (their normal-form theorem is not written). Real-valued comparisons in the library are approximate (1e-6 relative): generators stay on an exactness-safe grid; rounding coincidences are not modelled. The unique table's hashing is observed only through its effect (duplicates in the dump).",
+        "technique": "Lean 4 proof (canonical form uniqueness by induction on positions) + verified certificate checker run on dumps of the real forest + differential build-path comparison",
+        "partial": ["EV+/EV* normal form not proved (checked differentially)", "hash_agree / ut_find_spec not modelled"],
+    },
+    "C02": {
+        "title": "Every stored node obeys the reduction rule",
+        "theorems": CORE + ["Meddly.Dump.check_sound_node", "Meddly.Dump.red_of_node", "Meddly.DD.Red_WFTree"],
+        "quick": [fam("canon"), fam("setops")],
+        "thorough": [fam("canon", "asan"), fam("setops", "asan")],
+        "leanchecker": ["MeddlyModel.Core.Dump"],
+        "level_text": "The executable certificate checker Dump.check (no duplicate content, children strictly below and live, node-local reduction conditions, per-edge skipping conditions, root conditions) is proved sound: an accepted dump unfolds to trees in reduced form (Dump.check_sound, check_sound_node). It is run on a dump of EVERY active node of the real forest (public node-inspection API, full view) at every quiescent point of generated histories, for every MT forest kind and random storage / memory-manager / deletion policies; reported node count must equal the number of live nodes.",
+        "level_note": "The checker's completeness (never rejects a good state) is not proved; it is supported by clean runs at many seeds. Sparse/full view agreement and hashing are checked only through unique-table effects. EV forests: structural recount + model evaluation only.",
+        "technique": "verified certificate checker (Lean 4 soundness proof) applied to dumps of the real node store",
+        "partial": ["full/sparse view agreement and hash equality not dumped", "EV forests: no verified normal-form checker"],
+    },
 }
 
 NOT_YET = {}
